@@ -256,9 +256,15 @@ theorem stepB_mu {pc : PCfg} (hp : pc.c.policy = .acyclic) {pm pm' : PM} (hi : I
       omega
     · rename_i s hsome
       have hjlt : j < (listOf pm pc.L t).length := (List.getElem?_eq_some_iff.1 hsome).1
+      split at h
+      · -- `if s.cut_short: continue`
+        cases h
+        unfold muB frameRemB
+        simp only [hfr, listOf_def] at hjlt ⊢
+        omega
       cases h
       rw [hp] at hi' ⊢
-      rcases addLast_cases .acyclic pm (advanceP .acyclic pc.L t s) with he | ⟨_, he | he⟩
+      rcases addLast_cases .acyclic pm (advanceP pc.cutShort .acyclic pc.L t s) with he | ⟨_, he | he⟩
       · rw [he]
         unfold muB frameRemB
         simp only [hfr, listOf_def] at hjlt ⊢
@@ -271,7 +277,7 @@ theorem stepB_mu {pc : PCfg} (hp : pc.c.policy = .acyclic) {pm pm' : PM} (hi : I
         have hcap : capP pc ≤ capN pc := by unfold capN; omega
         simp only [listOf_def] at hjlt ⊢
         apply muB_grow _ _ _ _ _ (by omega)
-        have := listOfC_append pm.ldots pm.m.cols pc.L t (advanceP .acyclic pc.L t s)
+        have := listOfC_append pm.ldots pm.m.cols pc.L t (advanceP pc.cutShort .acyclic pc.L t s)
         omega
       · rw [he] at hi' ⊢
         have hlen := lastLen_le hi'.ch
